@@ -154,6 +154,7 @@ theorem stored_monotone_step (s : St) (h : Inv s) (hc : CfgOk s.cfg) (op : Op) :
   | lead m => simp only [step]; split <;> exact storedLe_of_eq rfl
   | expire m => exact storedLe_of_eq rfl
   | resign => exact storedLe_of_eq rfl
+  | dropKey => exact storedLe_of_eq rfl
   | getTS m count =>
     simp only [step, getTS]
     split
